@@ -36,6 +36,7 @@ RandomOutcome(e) ==
     IN  IF o.k = "exc" /\ ~o.lib THEN "non-library-exception"
         ELSE IF ~supported THEN (IF o.k = "ok" /\ e.country # <<>> /\ req \notin DOMAIN Table
                                  THEN "drawn-for-unknown-country" ELSE "ok")
+        ELSE IF o.k = "ok" /\ "untouched" \in DOMAIN o /\ ~o.untouched THEN "later-call-drew-from-the-callers-generator"
         ELSE IF o.k = "exc" THEN (IF o.cls = "GenerateRandomOverflowError" \/ ~fit THEN "ok" ELSE "raised-other-than-overflow")
         ELSE LET s == IF e.op = "iban.random" THEN o.val ELSE o.cc \o <<48, 48>> \o o.val
                  key == CountryKey(s)
